@@ -1072,12 +1072,140 @@ def check_shrinkage_diag(run, E):
     yield ck
 
 
+def check_shrinkage_eye(run, E):
+    """_covariance_eye (Ledoit-Wolf): either the sample covariance s itself (it equals its target: d2 == 0), or
+    (w1 * (m * I) + w2 * s) * n / dof with the target m * I of EQUAL TRACE (m = trace(s) / p), w1 + w2 = 1 and 0 <= w1 <= 1 for
+    ALL inputs -- a convex combination, shrinkage intensity w1 = min(d2, b2) / d2.  Non-negativity uses two facts about real
+    numbers that are proved in Lean (vf/lemmas/MeanSq.lean) and linked to the code structurally: d2 is a sum of squares, and
+    b2 is 1/n times a sum of (mean of squares - square of the mean) of the same outer products."""
+    ck = FuncCheck(E, run, 'C14', 'rsatoolbox.data.noise._covariance_eye', '')
+
+    def mk(E):
+        m = E.sym_val('matrix', tag='ndarray')
+        m.shape = (z3.Int('n'), z3.Int('p'))
+        return [m, E.sym_int('dof')], {}, [z3.Int('n') >= 2, z3.Int('p') >= 1, z3.Int('dof') >= 1]
+
+    def app_of(v, name, n):
+        a = getattr(v, 'app', None)
+        return a[1] if a is not None and a[0] == name and len(a[1]) == n else None
+
+    seen = {'shrunk': 0, 'plain': 0}
+
+    def post(ck, E, args, kw, p):
+        res = p.value
+        top = app_of(res, 'op/', 2)
+        inner = app_of(top[0], 'op*', 2) if top else None
+        ok = inner is not None
+        ck.ensure('post/estimate-is-rescaled-by-n-over-dof', z3.BoolVal(bool(ok)) if not ok else
+                  z3.And(E.veq(top[1], args[1]), E.as_int(inner[1]) == z3.Int('n')), structure=True)
+        if not ok:
+            return
+        comb = app_of(inner[0], 'op+', 2)
+        if comb is None:
+            # d2 == 0: the sample covariance is returned as it is
+            seen['plain'] += 1
+            s_ = app_of(inner[0], 'op/', 2)
+            ck.ensure('post/without-shrinkage-the-estimate-is-the-sample-covariance', z3.BoolVal(s_ is not None), structure=True)
+            return
+        seen['shrunk'] += 1
+        t1, t2 = app_of(comb[0], 'op*', 2), app_of(comb[1], 'op*', 2)       # (w1 * m) * eye  +  w2 * s
+        t11 = app_of(t1[0], 'op*', 2) if t1 else None
+        ok = t1 is not None and t2 is not None and t11 is not None and getattr(t1[1], 'app', None) and t1[1].app[0] == 'numpy.eye'
+        ck.ensure('post/estimate-is-w1-times-scaled-identity-plus-w2-times-s', z3.BoolVal(bool(ok)), structure=True)
+        if not ok:
+            return
+        w1, mval, w2, s_ = t11[0], t11[1], t2[0], t2[1]
+        # target of equal trace: m = sum(diag(s)) / s.shape[0]
+        mm = app_of(mval, 'op/', 2)
+        tr = app_of(mm[0], 'numpy.sum', 1) if mm else None
+        dg = app_of(tr[0], 'numpy.diag', 1) if tr else None
+        ck.ensure('post/target-is-the-identity-scaled-to-equal-trace', z3.BoolVal(dg is not None) if dg is None else
+                  E.veq(dg[0], s_), structure=True)
+        a1, a2 = app_of(w1, 'op/', 2), app_of(w2, 'op/', 2)
+        num2 = app_of(a2[0], 'op-', 2) if a2 else None
+        ok = a1 is not None and num2 is not None
+        ck.ensure('post/weights-are-b2-over-d2-and-(d2-b2)-over-d2', z3.BoolVal(bool(ok)), structure=True)
+        if not ok:
+            return
+        b2, d2 = a1[0], a1[1]
+        same = z3.And(E.veq(a2[1], d2), E.veq(num2[0], d2), E.veq(num2[1], b2))
+        ck.ensure('post/both-weights-use-the-same-b2-and-d2', same, structure=True)
+        mn = app_of(b2, 'min', 2)
+        ok = mn is not None
+        ck.ensure('post/b2-is-capped-by-d2', z3.BoolVal(bool(ok)) if not ok else z3.Or(E.veq(mn[0], d2), E.veq(mn[1], d2)), structure=True)
+        if not ok:
+            return
+        braw = mn[1] if E.veq(mn[0], d2) is not None and z3.is_true(z3.simplify(E.veq(mn[0], d2))) else mn[0]
+        # structural links to the Lean lemmas
+        sq = app_of(d2, 'numpy.sum', 1)
+        sq2 = app_of(sq[0], 'op**', 2) if sq else None
+        ck.ensure('post/d2-is-a-sum-of-squares', z3.BoolVal(sq2 is not None and E.is_numeric(sq2[1]) and
+                                                         z3.is_true(z3.simplify(E.as_real(sq2[1]) == 2))), structure=True)
+        br = app_of(braw, 'op/', 2)
+        bs = app_of(br[0], 'numpy.sum', 1) if br else None
+        bd_ = app_of(bs[0], 'op-', 2) if bs else None
+        msq = app_of(bd_[0], 'op/', 2) if bd_ else None          # s2_sum / n
+        sqm = app_of(bd_[1], 'op*', 2) if bd_ else None          # s * s
+        ok = msq is not None and sqm is not None
+        link = z3.BoolVal(False)
+        if ok:
+            link = z3.And(E.veq(sqm[0], sqm[1]), E.veq(sqm[0], s_))
+        ck.ensure('post/b2-is-the-summed-(mean-of-squared-products-minus-squared-mean-product)-over-n', link, structure=True)
+        # arithmetic over the numeric values of the opaque scalars (the structural obligations above tie the code's terms to
+        # these definitions): b2 = min(d2, braw), w1 = b2 / d2, w2 = (d2 - b2) / d2, on the branch d2 != 0
+        from vf.pyvc.core import ufunc
+        R = lambda v: E.as_real(v) if E.is_numeric(v) else ufunc('real_of', 1, 'real')(v.z)
+        d2r, brr = R(d2), R(braw)
+        b2r = z3.If(brr < d2r, brr, d2r)
+        w1r, w2r = b2r / d2r, (d2r - b2r) / d2r
+        lemma = z3.And(d2r >= 0, brr >= 0, d2r != 0)   # Lean: sum_sq_nonneg, var_of_products_nonneg; d2 != 0 is this branch
+        ck.ensure('post/weights-sum-to-one', z3.Implies(lemma, w1r + w2r == 1))
+        ck.ensure('post/shrinkage-intensity-lies-in-[0,1]', z3.Implies(lemma, z3.And(w1r >= 0, w1r <= 1)))
+    ck.execute(mk, post=post, allow_raise=lambda *a: None)
+    ck.ensure_paths = seen
+    if not (seen['shrunk'] and seen['plain']):
+        run.obligation(ck.name('post/both-branches-reachable'), 'refuted', 'z3', 0.0, detail=str(seen))
+        ck.failed.append((ck.name('post/both-branches-reachable'), 'structure', None))
+    yield ck
+
+
+def lean_lemmas(run):
+    """Lean 4 + Mathlib: mean of squares >= square of the mean; sums of squares are non-negative (used by check_shrinkage_eye)"""
+    import os, subprocess, time
+    root = os.path.dirname(os.path.dirname(os.path.abspath(__file__)))
+    src = os.path.join(root, 'vf', 'lemmas', 'MeanSq.lean')
+    okf = os.path.join(root, '.lean_out', 'MeanSq.ok')
+    if not os.path.exists(src):
+        run.notes.append('Lean lemma MeanSq.lean not present')
+        return
+    t0 = time.time()
+    if not os.path.exists(okf) or os.path.getmtime(okf) < os.path.getmtime(src) or run.tier == 'thorough':
+        r = subprocess.run(['lake', 'env', 'lean', src], cwd='/opt/veriftools/mathlib4', capture_output=True, text=True, timeout=900)
+        ok = r.returncode == 0 and 'error' not in r.stdout and 'sorry' not in r.stdout
+        detail = (r.stdout + r.stderr)[-400:]
+        if ok:
+            os.makedirs(os.path.dirname(okf), exist_ok=True)
+            open(okf, 'w').write('ok')
+    else:
+        ok, detail = True, 'compiled by setup.sh (cached)'
+    txt = open(src).read()
+    if 'sorry' in txt or 'axiom ' in txt:
+        ok, detail = False, 'lemma file contains sorry/axiom'
+    for name in ('mean_sq_ge_sq_mean', 'var_of_products_nonneg', 'sum_sq_nonneg'):
+        if f'theorem {name}' in txt:
+            run.obligation(f'C14/lemma/{name}', 'proved' if ok else 'unknown', 'lean4+mathlib', time.time() - t0, detail=detail)
+    run.trust('Lean 4.33 kernel + Mathlib for the two real-number facts behind the non-negativity of b2 and d2 in _covariance_eye; '
+              'they are linked to the code by structural obligations (d2 is np.sum(x ** 2); b2 sums s2_sum / n - s * s), the '
+              'fold identity s2_sum = sum of squared outer products is the loop summary of engine A')
+
+
 def run(run):
     E = new_engine(run)
     from contracts.common import install_dataset
     install_dataset(E)
     fails = []
-    for gen in (check_demean, check_cov_list, check_prec, check_unbalanced_dof, check_shrinkage_diag):
+    lean_lemmas(run)
+    for gen in (check_demean, check_cov_list, check_prec, check_unbalanced_dof, check_shrinkage_diag, check_shrinkage_eye):
         for ck in gen(run, E):
             fails += ck.failed
     finish_engine(E, run)
